@@ -23,7 +23,8 @@ def independent(m, ts):
 @st.composite
 def cases(draw, tier, override=None):
     go = {"max_leaf": 6 if tier == "quick" else 10, "max_mid": 5 if tier == "quick" else 9,
-          "p_csum": 20, "p_always": 15, "p_gate": 60, "p_stem": 35, "p_postgate": 25}
+          "p_csum": 25, "p_always": 15, "p_gate": 60, "p_stem": 35, "p_postgate": 25, "p_lossy": 50,
+          "p_poststamp_gate": 20}
     go.update(override or {})
     proj = draw(sgen.graphs(go))
     L = proj["layers"]
@@ -33,6 +34,10 @@ def cases(draw, tier, override=None):
     ts = sgen._subset(draw, L["tops"] + L["mids"], 1, 3)
     if kind == "redo":
         ts = independent(m, ts)
+    elif draw(st.integers(0, 99)) < 40:
+        # a redo-ifchange command line may also name a leaf next to the targets that depend on it: the dependent is
+        # then CHECKED (not built) by a sibling job while the leaf's own script is still running
+        ts = sgen._subset(draw, L["leaves"], 1, 2) + ts
     if draw(st.integers(0, 99)) < 25:
         ts = ts + [ts[0]]     # duplicate name on the command line
     env = {}
